@@ -16,6 +16,7 @@ import (
 
 	"github.com/benbjohnson/litestream"
 	"github.com/benbjohnson/litestream/internal"
+	"github.com/benbjohnson/litestream/verifhook"
 )
 
 func init() {
@@ -196,9 +197,11 @@ func (c *ReplicaClient) WriteLTXFile(ctx context.Context, level int, minTXID, ma
 		}
 	}()
 
+	verifhook.FS("write", tmpFilename, "")
 	if _, err := io.Copy(f, fullReader); err != nil {
 		return nil, err
 	}
+	verifhook.FS("fsync", tmpFilename, "")
 	if err := f.Sync(); err != nil {
 		return nil, err
 	}
@@ -221,6 +224,7 @@ func (c *ReplicaClient) WriteLTXFile(ctx context.Context, level int, minTXID, ma
 	}
 
 	// Move LTX file to final path when it has been written & synced to disk.
+	verifhook.FS("rename", tmpFilename, filename)
 	if err := os.Rename(tmpFilename, filename); err != nil {
 		return nil, err
 	}
@@ -229,6 +233,7 @@ func (c *ReplicaClient) WriteLTXFile(ctx context.Context, level int, minTXID, ma
 	}
 
 	// Set file ModTime to preserve original timestamp
+	verifhook.FS("chtimes", filename, "")
 	if err := os.Chtimes(filename, timestamp, timestamp); err != nil {
 		return nil, err
 	}
@@ -243,6 +248,7 @@ func (c *ReplicaClient) DeleteLTXFiles(ctx context.Context, a []*ltx.FileInfo) e
 
 		c.logger.Debug("deleting ltx file", "level", info.Level, "minTXID", info.MinTXID, "maxTXID", info.MaxTXID, "path", filename)
 
+		verifhook.FS("remove", filename, "")
 		if err := os.Remove(filename); err != nil && !os.IsNotExist(err) {
 			return err
 		}
@@ -252,6 +258,7 @@ func (c *ReplicaClient) DeleteLTXFiles(ctx context.Context, a []*ltx.FileInfo) e
 
 // DeleteAll deletes all LTX files.
 func (c *ReplicaClient) DeleteAll(ctx context.Context) error {
+	verifhook.FS("removeall", c.path, "")
 	if err := os.RemoveAll(c.path); err != nil && !os.IsNotExist(err) {
 		return err
 	}
